@@ -114,12 +114,12 @@ def _metadata(cfg, cx):
                 "reshape_pmap": (lambda: m.reshape_pmap([None]), same), "get_subset": (lambda: m.get_subset(jnp.array([2, 0])), same),
                 "get_one": (lambda: m.get_one(1), same), "get_one(keepdims=False)": (lambda: m.get_one(1, keepdims=False), same),
                 "empty": (lambda: m.empty(), (D, flags, [])), "from_images(to_images)": (lambda: geom.MultiImage.from_images(m.get_one(0, keepdims=False).to_images()), same),
-                "jit": (lambda: jax.jit(lambda q: q)(m), (D, flags, sorted(keys))), "vmap": (lambda: jax.vmap(lambda q: q)(m), (D, flags, sorted(keys))),
+                "jit": (lambda: jax.jit(lambda q: q)(m), (D, flags, set(keys))), "vmap": (lambda: jax.vmap(lambda q: q)(m), (D, flags, set(keys))),
             }
             for nm, (fn, (eD, ef, ek)) in cases.items():
                 try:
                     o = fn()
-                    got = (o.D, tuple(o.is_torus), list(o.keys()))
+                    got = (o.D, tuple(o.is_torus), set(o.keys()) if isinstance(ek, set) else list(o.keys()))  # (jit/vmap: order is jax's business)
                 except Exception as e:  # noqa: BLE001
                     got = f"raised {type(e).__name__}: {str(e)[:80]}"
                 cx.structural(f"metadata of {nm} on {keys} flags={flags}", got == (eD, tuple(ef), ek),
